@@ -1,116 +1,28 @@
-(** The PRODUCT of the two validated models: Abs(mutex, conds, felock) (Sync/SyncModel.v) and the
-    scheduler-level machine (Machine/MachineModel.v), with synchronised transitions that mirror
-    src/myth_sync_func.h:
+(** The product of Abs(mutex, conds, felock) (Sync/SyncModel.v) with the scheduler-level machine:
+    the Sync instance of the generic product (Compose/GenericModel.v, Compose/Instances.v: module
+    SyncI) under the names used by Properties_Compose.v and the C04 tie.
 
     - a Sync step of thread [t] in its own context (call / tick / ret) runs on a worker [w] with
-      [cur w = Run t]; a callback step [ECbTick i] of [t] on a worker with [cur w = Cb t]
-      (myth_block_on_queue_cb runs on the worker the thread just left);
+      [cur w = Run t]; a callback step [ECbTick i] of [t] on a worker with [cur w = Cb t];
     - a blocking step (lock.cas2 succeeds, felock status mismatch, call of cond_wait: exactly the
-      main-context steps after which the thread's pc is [Susp]) carries the machine moves of
-      myth_block_on_queue: pop the own run queue if it is non-empty (PopOwn), then save the
-      context (SaveCtx): the worker now runs the callback;
-    - the step that finishes a callback (the one that removes it from [cbs]) carries EndCb;
-    - a push step ([UPush x] in either context, [SigPush _ _ x]) carries PushTop x on the executing
-      worker (myth_queue_push(&env->runnable_q, to_wake));
-    - free machine moves that do not touch the Sync state (creation, pops, steals, joins, yields,
-      thread exit, dispatch), so that arbitrary surrounding scheduling is covered.  The three moves
-      that give a place to a saved thread by other mechanisms than the Sync wake-up (TakeJoiner j,
-      PutBase, PushTop x: join hand-over, yield, wake-ups of other primitives) are enabled only
-      for threads that are not suspended inside this Sync object: those threads' only way back is
-      a Sync push step.
-
-    Executable; extracted and replayed against the real library by tools/props/compose.py. *)
+      own-context steps after which the thread's pc is [Susp]) carries pop-if-any + SaveCtx;
+    - the step that finishes a callback (removes it from [cbs]) carries EndCb;
+    - a push step ([UPush x] in either context, [SigPush _ _ x]) carries PushTop x;
+    - free machine moves; TakeJoiner j / PutBase / PushTop x only for threads not suspended
+      inside the Sync object. *)
 From Coq Require Import ZArith List Bool Arith.
-From MT Require Import Sync.SyncModel Machine.MachineModel.
+From MT Require Import Sync.SyncModel Machine.MachineModel Compose.GenericModel Compose.Instances.
 Import ListNotations.
 
-Record cstate := { sy : SyncModel.state; ma : mstate }.
-
-Inductive cev :=
-| CSync (w t : nat) (e : ev)
-| CMach (w : nat) (m : move).
-
-Definition cinit (nworkers nthreads nconds : nat) : cstate :=
-  {| sy := init_state nthreads nconds; ma := minit nworkers nthreads |}.
-
-Definition susp_at (s : SyncModel.state) (t : nat) : bool :=
-  match get_thread s t with
-  | Some th => match main th with Susp _ => true | _ => false end
-  | None => false
-  end.
-
-(** the thread a step hands to the run queue *)
-Definition push_target (s : SyncModel.state) (t : nat) (e : ev) : option nat :=
-  match get_thread s t with
-  | None => None
-  | Some th =>
-    match e with
-    | ETick => match main th with
-               | Unl (UPush _ x) | SigPush _ _ x => Some x
-               | _ => None
-               end
-    | ECbTick i => match nth_error (cbs th) i with
-                   | Some (CbUnl (UPush _ x)) => Some x
-                   | _ => None
-                   end
-    | _ => None
-    end
-  end.
-
-Definition is_cb_ev (e : ev) : bool := match e with ECbTick _ => true | _ => false end.
-
-Definition guard_ok (m : mstate) (w t : nat) (e : ev) : bool :=
-  match nth_error (cur m) w with
-  | Some (Run u) => Nat.eqb u t && negb (is_cb_ev e)
-  | Some (Cb u) => Nat.eqb u t && is_cb_ev e
-  | _ => false
-  end.
-
-(** myth_queue_pop of the own run queue at the beginning of myth_block_on_queue *)
-Definition autopop (m : mstate) (w : nat) : option mstate :=
-  match nth_error (hand m) w, nth_error (dq m) w with
-  | Some None, Some (_ :: _) => mmove m w PopOwn
-  | _, _ => Some m
-  end.
-
-Definition obind {A B} (o : option A) (f : A -> option B) : option B :=
-  match o with Some x => f x | None => None end.
-
-Definition csync (c : cstate) (w t : nat) (e : ev) : option cstate :=
-  if guard_ok (ma c) w t e then
-    obind (SyncModel.step (sy c) (t, e)) (fun s1 =>
-    obind (match push_target (sy c) t e with
-           | Some x => mmove (ma c) w (PushTop x)
-           | None => Some (ma c)
-           end) (fun m1 =>
-    if is_cb_ev e then
-      if Nat.ltb (ncbs s1 t) (ncbs (sy c) t)
-      then obind (mmove m1 w EndCb) (fun m2 => Some {| sy := s1; ma := m2 |})
-      else Some {| sy := s1; ma := m1 |}
-    else
-      if susp_at s1 t
-      then obind (autopop m1 w) (fun m2 => obind (mmove m2 w SaveCtx) (fun m3 => Some {| sy := s1; ma := m3 |}))
-      else Some {| sy := s1; ma := m1 |}))
-  else None.
-
-(** free machine moves; the thread that would get a place by a non-Sync mechanism must not be
-    suspended inside the Sync object *)
-Definition free_ok (c : cstate) (w : nat) (m : move) : bool :=
-  match m with
-  | TakeJoiner j => negb (susp_at (sy c) j)
-  | PushTop x => negb (susp_at (sy c) x)
-  | PutBase => match nth_error (cur (ma c)) w with
-               | Some (Cb t) => negb (susp_at (sy c) t)
-               | _ => true
-               end
-  | _ => true
-  end.
-
-Definition cmach (c : cstate) (w : nat) (m : move) : option cstate :=
-  if free_ok c w m then obind (mmove (ma c) w m) (fun m1 => Some {| sy := sy c; ma := m1 |}) else None.
-
-Definition cstep (c : cstate) (a : cev) : option cstate :=
-  match a with
-  | CSync w t e => csync c w t e
-  | CMach w m => cmach c w m
-  end.
+Definition cstate := SyncI.pstate.
+Definition cev := SyncI.pevent.
+Notation CSync := (@GSync ev).
+Notation CMach := (@GMach ev).
+Notation sy := (@gp state).
+Notation ma := (@gm state).
+Notation susp_at := SyncI.susp.
+Notation push_target := SyncI.push.
+Notation is_cb_ev := SyncI.is_cb.
+Notation cguard := (guard_ok ev SyncI.is_cb).
+Definition cstep : cstate -> cev -> option cstate := SyncI.pstep.
+Definition cinit (nworkers nthreads nconds : nat) : cstate := SyncI.pinit nworkers nthreads nconds.
